@@ -10,6 +10,7 @@ TInit == l = 1 /\ viol = {} /\ nsteps = 0 /\ ndiv = 0
 Checks(e) ==
   CASE e.kind = "pair"      -> IF e.differ THEN {} ELSE {<<"C20.DigestBindsField", l>>}
     [] e.kind = "cross"     -> IF e.differ THEN {} ELSE {<<"C20.KindsNeverCoincide", l>>}
+    [] e.kind = "universe"  -> IF e.distinct = e.messages /\ e.messages = USize THEN {} ELSE {<<"C20.DistinctMessagesDistinctDigests", l>>}
     [] e.kind = "roundtrip" -> IF e.same_digest /\ e.verifies THEN {} ELSE {<<"C20.RoundTripPreservesIdentity", l>>}
     [] OTHER -> {}
 TNext ==
